@@ -147,12 +147,12 @@ static inline void cstl_array_reset(cstl_array_t * const a)
 #ifdef VF_A_EMPTY
 REQUIRES(A_FRESH(a) && A_EMPTY(a))
 ASSIGNS(a->off, a->len, a->ptr.data.ptr, a->ptr.data.self)
-ENSURES(GP_OK(&a->ptr.data) && A_EMPTY(a) && a->off == 0)
+ENSURES(GP_OK(&a->ptr.data) && A_EMPTY(a))
 #else
 REQUIRES(A_VIEW(a))
 ASSIGNS(a->off, a->len, a->ptr.data.ptr, a->ptr.data.self, __CPROVER_object_whole(a->ptr.data.ptr))
 FREES(a->ptr.data.ptr, BLK(a)->up.gp.ptr)
-ENSURES(GP_OK(&a->ptr.data) && A_EMPTY(a) && a->off == 0)
+ENSURES(GP_OK(&a->ptr.data) && A_EMPTY(a))
 ENSURES(__CPROVER_was_freed(OLD(BLK(a)->up.gp.ptr)) == (vf_w_hard == 1))
 ENSURES(__CPROVER_was_freed(OLD(a->ptr.data.ptr)) == (vf_w_soft == 1))
 ENSURES(vf_w_soft > 1 ==> (HARD((vf_blk_t *)OLD(a->ptr.data.ptr)) == vf_w_hard - 1 && SOFT((vf_blk_t *)OLD(a->ptr.data.ptr)) == vf_w_soft - 1))
@@ -395,12 +395,12 @@ void h_reset(void)
 {
 #ifdef VF_A_EMPTY
     cstl_array_t e; cstl_array_init(&e); cstl_array_reset(&e);
-    VF_NCHECK(cstl_array_data(&e) == NULL && cstl_array_size(&e) == 0 && e.off == 0, "reset of an empty object leaves it empty");
+    VF_NCHECK(cstl_array_data(&e) == NULL && cstl_array_size(&e) == 0, "reset of an empty object leaves it empty");
 #else
     cstl_array_t * a = vf_native_view();
     vf_nat_owners(a);
     cstl_array_reset(a);
-    VF_NCHECK(cstl_array_data(a) == NULL && cstl_array_size(a) == 0 && a->off == 0, "reset leaves the object empty (offset and length 0)");
+    VF_NCHECK(cstl_array_data(a) == NULL && cstl_array_size(a) == 0, "reset leaves the object empty");
     if (vf_w_hard > 1) VF_NCHECK(cstl_array_data(&vf_nat_others[1]) != NULL, "the buffer stays alive for the other objects that refer to it (ASan: no use after free)");
 #endif
 }
